@@ -39,6 +39,9 @@ class Prop:
         if form == "sample_sampler":
             sc["sampler"] = ctx.new_source(rng.choice(["cold", "hot"]), prefix="p", maxn=6)
         sc["sources"] = ctx.sources
+        off = rng.choice([None, None, None, 37, 123, 411])
+        if off:
+            sc["sub2_t"] = 205 + off
         return sc
 
     def build(self, w, sc):
@@ -71,6 +74,9 @@ class Prop:
 
     def execute(self, sc):
         out = Outcome()
+        if sc["d"] <= 0:  # not a generated scenario (shrinker candidate): throttle_first rejects it by design
+            out.digest = ("invalid",)
+            return out
         desc = "form=%s d=%s clock=%s sources=%s" % (sc["form"], sc["d"], sc["clock"], [(s["id"], s["kind"], s["events"]) for s in sc["sources"]])
         out.probes["form:" + sc["form"]] += 1
         w, rec, wants = tm.compare(sc, self.build, self.model, out, desc)
